@@ -24,10 +24,18 @@ macro_rules! make_shared {
 
         impl $shared_ty {
             pub fn read(&self) -> parking_lot::RwLockReadGuard<'_, $inner_ty> {
+                #[cfg(feature = "verif")]
+                $crate::verif::sched::block_until($crate::verif::sched::site::PAGER_READ, || {
+                    !self.0.is_locked_exclusive()
+                });
                 self.0.read()
             }
 
             pub fn write(&self) -> parking_lot::RwLockWriteGuard<'_, $inner_ty> {
+                #[cfg(feature = "verif")]
+                $crate::verif::sched::block_until($crate::verif::sched::site::PAGER_WRITE, || {
+                    !self.0.is_locked()
+                });
                 self.0.write()
             }
 
